@@ -459,6 +459,22 @@ class Checker:
                 pnode, n, self.env(n))
         return test
 
+    def assigns(self, target: str, value: str = '_'):
+        """Statement test: `target = value` (patterns)."""
+        tp, _ = pat.parse_pat(target)
+        vp, _ = pat.parse_pat(value)
+
+        def test(n):
+            if isinstance(n, ast.Assign) and len(n.targets) == 1:
+                t, v = n.targets[0], n.value
+            elif isinstance(n, ast.AnnAssign) and n.value is not None:
+                t, v = n.target, n.value
+            else:
+                return False
+            env = self.env(n)
+            return pat.match(tp, t, env) and pat.match(vp, v, env)
+        return test
+
     def fold(self, node):
         return self.K.fold_at(node)
 
